@@ -177,7 +177,7 @@ type mdriver struct {
 	persist  *event
 	aborted  bool
 	fails    int
-	timeout  time.Duration
+	deadline time.Time // of the whole case
 	dupPosts int
 	overlap  bool
 	nregs    int
@@ -192,6 +192,31 @@ func (d *mdriver) abort(why int64) {
 	d.w.logf(99, why)
 	d.aborted = true
 	close(d.w.abortCh)
+}
+
+// wait: how long the driver waits for one step (the whole case has a deadline).
+func (d *mdriver) wait() time.Duration {
+	rem := time.Until(d.deadline)
+	if rem > 30*time.Second {
+		rem = 30 * time.Second
+	}
+	if rem < 20*time.Millisecond {
+		rem = 20 * time.Millisecond
+	}
+	return rem
+}
+
+// call runs an addSubscriber; it can block for ever (updateLastSeq sends on a full queue while push.mu is held).
+func (d *mdriver) call(req *types.PushSubscribeReq) (int64, bool) {
+	res := make(chan error, 1)
+	go func() { res <- d.w.push.AddSubscriberVerif(req) }()
+	select {
+	case err := <-res:
+		return errCode(err), true
+	case <-time.After(d.wait()):
+		d.abort(216)
+		return -1, false
+	}
 }
 
 func (d *mdriver) orphan(g int) bool { return d.gs[g].nid != d.entryNid }
@@ -216,8 +241,10 @@ func (d *mdriver) collect(n int, why int64) bool {
 				d.w.logf(ent...)
 			case evDeactLog:
 				d.w.logf(24, int64(ev.g))
+			case evDeact:
+				d.w.logf(32, int64(ev.g)) // it has deleted the task entry and is held at its record store
 			}
-		case <-time.After(d.timeout):
+		case <-time.After(d.wait()):
 			d.abort(why)
 			return false
 		}
@@ -286,6 +313,15 @@ func (d *mdriver) inWindow() bool {
 	return false
 }
 
+func (d *mdriver) atDeactLog() bool {
+	for _, s := range d.gs {
+		if s.ev != nil && !s.dead && s.ev.kind == evDeactLog {
+			return true
+		}
+	}
+	return false
+}
+
 func (d *mdriver) liveOn(nid int) int {
 	n := 0
 	for _, g := range d.gs {
@@ -301,14 +337,20 @@ func (d *mdriver) register() {
 	if d.aborted {
 		return
 	}
+	exists, _, q := d.info()
+	if exists && q >= 8 {
+		return // updateLastSeq would block on the full queue with push.mu held
+	}
 	if d.inWindow() {
 		d.overlap = true
 	}
-	exists, _, _ := d.info()
 	before := d.startedCount()
 	d.w.logf(7, 1)
-	err := d.w.push.AddSubscriberVerif(subscribeReq(d.h.Ty, d.h.Enc))
-	d.w.logf(9, errCode(err))
+	code, ok := d.call(subscribeReq(d.h.Ty, d.h.Enc))
+	if !ok {
+		return
+	}
+	d.w.logf(9, code)
 	d.nregs++
 	if d.startedCount() > before {
 		nid := d.entryNid
@@ -353,6 +395,10 @@ func (d *mdriver) blockKind() bool { return d.h.Ty == 0 || d.h.Ty == 1 || d.h.Ty
 // schedule releases goroutine g from its park and waits for its next park.
 func (d *mdriver) schedule(g int, ok bool, asErr bool) {
 	if d.aborted {
+		return
+	}
+	if g < 0 || g >= len(d.gs) {
+		d.abort(217) // the script expects a goroutine that was never spawned
 		return
 	}
 	s := d.gs[g]
@@ -420,7 +466,7 @@ func (d *mdriver) schedule(g int, ok bool, asErr bool) {
 		w.mu.Unlock()
 		w.logf(23, int64(g))
 		ev.goCh <- struct{}{}
-		deadline := time.Now().Add(d.timeout)
+		deadline := time.Now().Add(d.wait())
 		for {
 			w.mu.Lock()
 			dn := w.deacts
@@ -461,7 +507,7 @@ func (d *mdriver) schedule(g int, ok bool, asErr bool) {
 
 // waitRec waits until a last push sequence was stored after the rb-th one.
 func (d *mdriver) waitRec(rb int) bool {
-	for t0 := time.Now(); time.Since(t0) < d.timeout; time.Sleep(100 * time.Microsecond) {
+	for t0 := time.Now(); time.Since(t0) < d.wait(); time.Sleep(100 * time.Microsecond) {
 		d.w.mu.Lock()
 		rn := d.w.recs
 		d.w.mu.Unlock()
@@ -475,7 +521,7 @@ func (d *mdriver) waitRec(rb int) bool {
 
 // waitStartRead waits until goroutine g logged its start-up read.
 func (d *mdriver) waitStartRead(g int) bool {
-	deadline := time.Now().Add(d.timeout)
+	deadline := time.Now().Add(d.wait())
 	for {
 		d.w.mu.Lock()
 		found := false
@@ -619,13 +665,13 @@ func (d *mdriver) closeOp(second bool) {
 					d.abort(214)
 					return
 				}
-			case <-time.After(d.timeout):
+			case <-time.After(d.wait()):
 				d.abort(215)
 				return
 			}
 		}
 	}
-	wait := d.timeout
+	wait := d.wait()
 	if expectHang {
 		wait = 1500 * time.Millisecond
 	}
@@ -668,8 +714,11 @@ func (d *mdriver) firstSub(parkPersist bool) {
 	d.nextNid++
 	if !parkPersist {
 		w.logf(6, d.h.R0, 1, w.latest(), 0)
-		err := w.push.AddSubscriberVerif(req)
-		w.logf(9, errCode(err))
+		code, ok := d.call(req)
+		if !ok {
+			return
+		}
+		w.logf(9, code)
 		d.newGoroutine(d.entryNid, 207)
 		return
 	}
@@ -694,8 +743,11 @@ func (d *mdriver) firstSub(parkPersist bool) {
 	req2.LastSequence, req2.LastHeight, req2.LastBlockHash = req.LastSequence, req.LastHeight, req.LastBlockHash
 	w.logf(25, d.h.R0, 1)
 	d.noteQueue()
-	err := w.push.AddSubscriberVerif(req2)
-	w.logf(9, errCode(err))
+	code, ok := d.call(req2)
+	if !ok {
+		return
+	}
+	w.logf(9, code)
 	d.entryNid = d.nextNid
 	d.nextNid++
 	d.overlap = true
@@ -708,7 +760,7 @@ func (d *mdriver) firstSub(parkPersist bool) {
 	select {
 	case err := <-d.regDone:
 		w.logf(9, errCode(err))
-	case <-time.After(d.timeout):
+	case <-time.After(d.wait()):
 		d.abort(211)
 	}
 }
@@ -754,7 +806,7 @@ func runReg(h Reg) (term string, impl interface{}, nontriv bool, kind string) {
 	w.multi = true
 	w.logHook = h.LogHook
 	w.push = blockchain.NewPushVerif(w, w, w, cfg, 1)
-	d := &mdriver{w: w, h: h, r: hlib.NewRng(h.Sched), entryNid: -1, oq: map[int]int{}, timeout: 30 * time.Second}
+	d := &mdriver{w: w, h: h, r: hlib.NewRng(h.Sched), entryNid: -1, oq: map[int]int{}, deadline: time.Now().Add(75 * time.Second)}
 	d.grow(h.N0)
 	switch h.Tmpl {
 	case "rand":
@@ -764,17 +816,15 @@ func runReg(h Reg) (term string, impl interface{}, nontriv bool, kind string) {
 		}
 		for k := 0; k < h.Steps && !d.aborted; k++ {
 			c := d.r.Intn(100)
+			if !h.Guarded && d.inWindow() && !d.atDeactLog() && d.r.Chance(2, 5) {
+				d.register() // a registration inside a start-up window
+				continue
+			}
 			switch {
 			case c < 12:
 				d.grow(d.r.Range(1, 4))
 			case c < 26:
-				dl := false
-				for _, s := range d.gs {
-					if s.ev != nil && !s.dead && s.ev.kind == evDeactLog {
-						dl = true
-					}
-				}
-				if dl || (h.Guarded && d.inWindow()) {
+				if d.atDeactLog() || (h.Guarded && d.inWindow()) {
 					d.pickAndSchedule()
 				} else {
 					d.register()
